@@ -17,7 +17,8 @@ RULE = ("inputs {lone file, flat directory, nested directory, missing path, file
         "the call is not reached) iff the direct run fails.  non-trivial = every case; distinct by (input, extras)")
 
 EXTRAS = {"none": [], "p": ["-p", "P"], "p2": ["-p", "two words"], "e": ["-e", "sub/"], "s": ["-s", "{cfg}"],
-          "e2": ["-e", "other/"], "p3": ["-p", "sub/"]}     # e+e2 repeat a flag, p3+e repeat a value
+          "e2": ["-e", "other/"], "p3": ["-p", "sub/"],
+          "p4": ["-p", "cmake-reference"], "e3": ["-e", "*-removed*"]}     # values that contain the characters of a flag     # e+e2 repeat a flag, p3+e repeat a value
 INPUTS = ["file", "flat", "nested", "missing", "badfile", "baddir"]
 
 CLI = ("import sys; sys.path.insert(0, %r); import warnings; warnings.filterwarnings('ignore'); import cminx; "
@@ -181,9 +182,9 @@ def run(ctx):
     quick = ctx.tier == "quick"
     singles = [[e] if e != "none" else [] for e in EXTRAS]
     pairs = [list(p) for p in itertools.permutations([e for e in EXTRAS if e != "none"], 2)
-             if not (p[0] in ("p", "p2", "p3") and p[1] in ("p", "p2", "p3"))]
+             if not (p[0] in ("p", "p2", "p3", "p4") and p[1] in ("p", "p2", "p3", "p4"))]
     if quick:
-        must = [["e", "e2"], ["p3", "e"]]
+        must = [["e", "e2"], ["p3", "e"], ["p4", "e3"]]
         pairs = must + [p for i, p in enumerate(pairs) if (i + ctx.seed) % 3 == 0 and p not in must]
     if not quick:
         pairs += [list(t) for t in itertools.permutations(["p", "e", "s", "e2"], 3)]
